@@ -20,7 +20,9 @@ valid = [r for r in rows if not r["result"].startswith("not a valid")]
 out = {"repo_head": head,
        "note": "one row per kept seeded change, from the latest run recorded in its meta.json: the full matrix ran at /repo 46da698 "
                "(197/200: one patch needed re-porting, two C09 seeds needed the extensions described in DESIGN 10.3); the C08 and "
-               "C09 rows were re-run at 545edd4 after the last extensions of those two checks",
+               "C09 rows were re-run at 545edd4 after the last extensions of those two checks; session 3: the C09 rows were re-run at e84d670 "
+               "after the composite scenarios were added, and the 13 round-5 rows (CXX-s10/s11 of C02 C05 C06 C13 C14 C16 C17 C18) come "
+               "from tools/keep_seed_wt.py at e84d670 after the extensions described in DESIGN 10.3 (3 of 13 were detected before them)",
        "detected": sum(1 for r in valid if r["result"] == "detected"), "total": len(valid), "rows": rows}
 json.dump(out, open('/verif/seeded/MATRIX.json', 'w'), indent=1)
 print(out["detected"], "/", out["total"], [r["seed"] for r in valid if r["result"] != "detected"])
